@@ -13,6 +13,10 @@ class Exc(object):
     def __init__(self, e):
         self.name = type(e).__name__
         self.msg = str(e)[:120]
+    @classmethod
+    def named(cls, name, msg=''):
+        e = cls.__new__(cls); e.name = name; e.msg = msg
+        return e
     def __eq__(self, o):
         return isinstance(o, Exc) and o.name == self.name
     def __ne__(self, o):
